@@ -421,6 +421,13 @@ func c13Gen(rt *rapid.T) c13Prog {
 	for i := 0; i < n; i++ {
 		s := gInt(rt, 1, len(p.Sess)-1, "s")
 		switch {
+		case c13Maybe(rt, 3) && p.Cfg.Calls && len(p.Sess) > 2 && p.Sess[1] == 0 && p.Sess[2] == 1:
+			// a party of a video call stops reading while the other side keeps writing: the server drops
+			// the connection in the middle of delivering a message, which ends the call
+			p.Ops = append(p.Ops, wOp{K: "sub", S: 1, T: "p1"}, wOp{K: "sub", S: 2, T: "p0"},
+				wOp{K: "pub", S: 1, T: "p1", A: "call", H: map[string]any{"webrtc": "started", "mime": c15Mime}},
+				wOp{K: "raw", S: 2, A: `{"note":{"topic":"$u0","what":"call","event":"accept","seq":` + fmt.Sprint(c13Pick(rt, []int{1, 1, 2, 3}, "callseq")) + `}}`},
+				wOp{K: "pause", S: 2}, wOp{K: "flood", S: 1, T: "p1", N: 200}, wOp{K: "resume", S: 2}, wOp{K: "sub", S: 2, T: "p0"}, wOp{K: "pub", S: 2, T: "p0"})
 		case c13Maybe(rt, 3) && p.Sess[1] >= 0:
 			// a client stops reading while the topic it is attached to is busy: the server drops it
 			p.Ops = append(p.Ops, wOp{K: "sub", S: 1, T: "g0"}, wOp{K: "sub", S: s, T: "g0"}, wOp{K: "pause", S: s}, wOp{K: "flood", S: 1, T: "g0", N: 200}, wOp{K: "resume", S: s})
